@@ -512,6 +512,142 @@ impl FdlActiveStation {
     }
 }
 
+/// Structured projection of the internal state for conformance checking against the TLA+ model
+/// (verification hook, only compiled with `--cfg profirust_verif`; does not change behaviour).
+#[cfg(profirust_verif)]
+#[derive(Debug, Clone, PartialEq, Eq)]
+pub struct VerifView {
+    pub connectivity: &'static str,
+    pub state: &'static str,
+    pub status_request: Option<u8>,
+    pub new_previous_station: Option<u8>,
+    pub collision_count: u8,
+    pub first_cycle_done: bool,
+    pub first_app: Option<usize>,
+    pub token_time_micros: Option<i64>,
+    pub claim_step: &'static str,
+    pub await_address: Option<u8>,
+    pub do_gap: bool,
+    pub attempt: u8,
+    pub gap_waiting: bool,
+    pub gap_value: u8,
+    pub las_state: &'static str,
+    pub last_bus_activity_micros: Option<i64>,
+    pub pending_bytes: usize,
+    pub last_token_time_micros: i64,
+    pub end_token_hold_time_micros: i64,
+    pub next_application: usize,
+}
+
+#[cfg(profirust_verif)]
+impl FdlActiveStation {
+    pub fn verif_view(&self) -> VerifView {
+        let mut v = VerifView {
+            connectivity: match self.connectivity_state {
+                ConnectivityState::Offline => "Offline",
+                ConnectivityState::Passive => "Passive",
+                ConnectivityState::Online => "Online",
+            },
+            state: "Offline",
+            status_request: None,
+            new_previous_station: None,
+            collision_count: 0,
+            first_cycle_done: false,
+            first_app: None,
+            token_time_micros: None,
+            claim_step: "",
+            await_address: None,
+            do_gap: false,
+            attempt: 0,
+            gap_waiting: false,
+            gap_value: 0,
+            las_state: self.token_ring.verif_las_state(),
+            last_bus_activity_micros: self.last_bus_activity.map(|t| t.total_micros()),
+            pending_bytes: self.pending_bytes,
+            last_token_time_micros: self.last_token_time.total_micros(),
+            end_token_hold_time_micros: self.end_token_hold_time.total_micros(),
+            next_application: self.next_application,
+        };
+        match self.gap_state {
+            GapState::Waiting { rotation_count } => {
+                v.gap_waiting = true;
+                v.gap_value = rotation_count;
+            }
+            GapState::DoPoll { current_address } => {
+                v.gap_value = current_address;
+            }
+        }
+        let attempt = |a: &PassTokenAttempt| match a {
+            PassTokenAttempt::First => 1,
+            PassTokenAttempt::Second => 2,
+            PassTokenAttempt::Third => 3,
+        };
+        match &self.state {
+            State::Offline => v.state = "Offline",
+            State::PassiveIdle => v.state = "PassiveIdle",
+            State::ListenToken {
+                status_request,
+                collision_count,
+            } => {
+                v.state = "Listen";
+                v.status_request = *status_request;
+                v.collision_count = *collision_count;
+            }
+            State::ActiveIdle {
+                status_request,
+                new_previous_station,
+                collision_count,
+            } => {
+                v.state = "ActiveIdle";
+                v.status_request = *status_request;
+                v.new_previous_station = *new_previous_station;
+                v.collision_count = *collision_count;
+            }
+            State::UseToken {
+                data,
+                first_cycle_done,
+            } => {
+                v.state = "UseToken";
+                v.first_cycle_done = *first_cycle_done;
+                v.first_app = data.first_app;
+                v.token_time_micros = Some(data.token_time.total_micros());
+            }
+            State::ClaimToken { step } => {
+                v.state = "Claim";
+                match step {
+                    ClaimTokenStep::FirstToken => v.claim_step = "First",
+                    ClaimTokenStep::SecondToken => v.claim_step = "Second",
+                    ClaimTokenStep::Scan => v.claim_step = "Scan",
+                    ClaimTokenStep::ScanAwaitResponse { address } => {
+                        v.claim_step = "Await";
+                        v.await_address = Some(*address);
+                    }
+                }
+            }
+            State::AwaitDataResponse { address, data } => {
+                v.state = "AwaitData";
+                v.await_address = Some(*address);
+                v.first_app = data.first_app;
+                v.token_time_micros = Some(data.token_time.total_micros());
+            }
+            State::PassToken { do_gap, attempt: a } => {
+                v.state = "PassToken";
+                v.do_gap = *do_gap == DoGap::Yes;
+                v.attempt = attempt(a);
+            }
+            State::CheckTokenPass { attempt: a } => {
+                v.state = "CheckPass";
+                v.attempt = attempt(a);
+            }
+            State::AwaitStatusResponse { address } => {
+                v.state = "AwaitStatus";
+                v.await_address = Some(*address);
+            }
+        }
+        v
+    }
+}
+
 #[must_use = "\"poll done\" marker must lead to exit of poll function!"]
 struct PollDone();
 
